@@ -27,12 +27,19 @@ A03 == ev'.e = "Cancel" /\ ev'.stage = "checkout" /\ Popped(ev'.r) # 0 /\ IsOpen
 NotA01 == [][~A01]_vars
 NotA02 == [][~A02]_vars
 NotA03 == [][~A03]_vars
-\* the owner of an HTTP/2 attempt goes away while others wait for it
-G04 == ev.e = "Cancel" /\ ReleasedStandby
-G05 == ev.e = "PollErr" /\ ReleasedStandby
-G06 == ev.e = "BgFail" /\ ReleasedStandby
-G07 == ev.e = "Handoff" /\ ReleasedStandby                 \* owner pre-empted without continue_after_preemption
-G08 == ev.e = "Handoff" /\ co[ev.r].st = "bg" /\ WaitingStandby   \* owner pre-empted, attempt continues in the background
+\* the owner of an HTTP/2 attempt goes away while others wait for it (action goals: the acting request is the owner)
+IsOwner(r) == co[r].owner /\ co[r].st \in {"active", "bg"}
+A04 == ev'.e = "Cancel" /\ IsOwner(ev'.r) /\ WaitingStandby
+A05 == ev'.e = "PollErr" /\ IsOwner(ev'.r) /\ WaitingStandby
+A06 == ev'.e = "BgFail" /\ IsOwner(ev'.r) /\ WaitingStandby
+\* the owner is pre-empted: it is served by a connection that arrived through its waiter while its own attempt is unfinished
+A07 == ev'.e = "Handoff" /\ IsOwner(ev'.r) /\ chan[ev'.r].st = "sent" /\ ~cfg.cap /\ WaitingStandby
+A08 == ev'.e = "Handoff" /\ IsOwner(ev'.r) /\ chan[ev'.r].st = "sent" /\ cfg.cap /\ WaitingStandby
+NotA04 == [][~A04]_vars
+NotA05 == [][~A05]_vars
+NotA06 == [][~A06]_vars
+NotA07 == [][~A07]_vars
+NotA08 == [][~A08]_vars
 \* released standby checkouts: one takes over, another waits for it
 G09 == ev.e = "PollPending" /\ co[ev.r].standby /\ rxw[ev.r] /\ (\E k \in Req : k # ev.r /\ co[k].owner /\ co[k].d # 0 /\ req[k].st = "checkout")
            /\ \E q \in Req : req[q].st \in {"cancelled", "error"}
@@ -65,7 +72,6 @@ G29 == ev.e = "Issue" /\ now > 0 /\ co[ev.r].h.c # 0 /\ Len(idle[ev.o]) >= 1
 G30 == ev.e = "DropPool" /\ ReleasedStandby
 G31 == ev.e = "HandBack" /\ ~cfg.alive
 
-NotG04 == ~G04  NotG05 == ~G05  NotG06 == ~G06  NotG07 == ~G07  NotG08 == ~G08
 NotG09 == ~G09  NotG10 == ~G10  NotG11 == ~G11  NotG12 == ~G12  NotG13 == ~G13  NotG14 == ~G14  NotG15 == ~G15  NotG16 == ~G16
 NotG17 == ~G17  NotG18 == ~G18  NotG19 == ~G19  NotG20 == ~G20  NotG21 == ~G21  NotG22 == ~G22  NotG23 == ~G23  NotG24 == ~G24
 NotG25 == ~G25  NotG26 == ~G26  NotG27 == ~G27  NotG28 == ~G28  NotG29 == ~G29  NotG30 == ~G30  NotG31 == ~G31
